@@ -98,7 +98,7 @@ class C20(CheckBase):
         ta = rng.choice(['dd', 'dms', None])
         ang = (lambda m: r_hp(rng, m)) if fa == 'dms' else (lambda m: r_dec(rng, m))
         if ep == 'vincinv':
-            lat1, lon1 = ang(85), ang(179)
+            lat1, lon1 = ang(rng.choice([85, 85, 89])), ang(179)
             if rng.random() < 0.5:      # short line near point 1
                 lat2 = lat1 + (round(rng.uniform(-0.3, 0.3), 4) if fa != 'dms' else round(rng.uniform(-0.2, 0.2), 2))
                 lon2 = lon1 + (round(rng.uniform(-0.3, 0.3), 4) if fa != 'dms' else round(rng.uniform(-0.2, 0.2), 2))
@@ -106,8 +106,8 @@ class C20(CheckBase):
                 lat2, lon2 = ang(85), ang(179)
             p = {'lat1': lat1, 'lon1': lon1, 'lat2': lat2, 'lon2': lon2}
         else:
-            p = {'lat1': ang(85), 'lon1': ang(179), 'azimuth1to2': abs(ang(359)),
-                 'ell_dist': rng.choice([round(rng.uniform(1, 2e6), 3), 54972.271, float(rng.randrange(1, 100000))])}
+            p = {'lat1': ang(rng.choice([85, 85, 89])), 'lon1': ang(179), 'azimuth1to2': abs(ang(359)) if rng.random() < 0.85 else ang(359),
+                 'ell_dist': rng.choice([round(rng.uniform(1, 2e6), 3), 54972.271, float(rng.randrange(1, 100000)), 0.001, 1.9e7])}
         return {'rid': rid, 'ep': ep, 'from': fa, 'to': ta, 'params': dict((k, repr(float(v))) for k, v in p.items())}
 
     def generate(self, rng, i, tier):
